@@ -632,6 +632,15 @@ def c12(d, run):
 
 
 def c17(d, run):
+    # the counters' arithmetic: striped, two's-complement deltas, wrapping sum (what Cache.tla abstracts into integers)
+    mw = d.tlc_mc("MetricsWrap.tla", "MetricsWrap.cfg", run.workdir, workers=2, timeout=600)
+    run.add_mc(mw, "MetricsWrap (3 stripes of width 16, deltas +-1..5, resets, <= 5 operations: the wrapping sum of the stripes is the net since the reset)")
+    if mw["violated"]:
+        run.violation("MetricsWrap.tla violates %s" % mw["violated"], replay_lines=[mw["out"][-4000:]])
+    pw = d.tlc_mc("MetricsWrap.tla", "MetricsWrap_plain.cfg", run.workdir, workers=2, timeout=600)
+    if "PlainSumFits" not in pw["violated"]:
+        raise d.ToolError("MetricsWrap_plain: the expected overflow of a plain sum (defect D13) was not found")
+    run.notes["metrics_witness"] = "MetricsWrap_plain.cfg: a plain (non-wrapping) sum of the stripes overflows, as expected (D13)"
     mc = d.tlc_mc("MC_Histogram.tla", "MC_Histogram.cfg", run.workdir, workers=2)
     run.add_mc(mc, "MC_Histogram (bounds 2,4,8; values on/around bounds; <= 6 updates / clears: count = sum of buckets, percentile rule)")
     if mc["violated"]:
